@@ -23,7 +23,7 @@ Definition fneedle_nums (k : fneedle) : list N :=
 Definition op_nums (x : op) : list N :=
   match x with
   | OAsgC cs | OCtorC cs | OAppC cs | OCmpC cs => [sz cs]
-  | OAsgS x | OCtorS x | OAppS x | OSprintf x | OCmpS x => [sz x]
+  | OAsgS x | OCtorS x | OAppS x | OSprintf x | OSprintfFail _ x | OCmpS x => [sz x]
   | OAsgFs | OCtorMv | OCtorCp | OPop | OAppFs | OSwap | OClear | OCmpFs
   | OFront | OBack | OLen | OEmpty | OStr | OEq | ONe | OItF | OItR => []
   | OInsNC i c ch => [i; c; ch]
@@ -139,6 +139,7 @@ Proof.
   - apply append_impl_safe; rewrite ?nlen_carr; try assumption; unfold M64 in *; lia.
   - cbn [pre_A] in Hpre. apply append_it_safe; try assumption; lia.
   - apply sprintf_safe; assumption.
+  - apply sprintf_fail_safe; [assumption|assumption|apply glibc_partial_len; assumption].
   (* replace *)
   - apply replace_impl_safe; try assumption; unfold M64 in *; lia.
   - apply replace_impl_safe; rewrite ?nlen_carr; try assumption; unfold M64 in *; lia.
